@@ -15,9 +15,9 @@ import (
 type PlanC13 struct {
 	Conf     FullConf     `json:"conf"`
 	Cli      CliSpec      `json:"cli"`
-	Term     int          `json:"term"`      // 0 client FinishSession, 1 server FinishSession, 2 server FailSession, 3 Client.Close, 4 Server.Close
-	AtMs     int          `json:"at_ms"`     // when the end is requested, after establishment
-	C2S      []SenderSpec `json:"c2s"`       // traffic in flight
+	Term     int          `json:"term"`  // 0 client FinishSession, 1 server FinishSession, 2 server FailSession, 3 Client.Close, 4 Server.Close
+	AtMs     int          `json:"at_ms"` // when the end is requested, after establishment
+	C2S      []SenderSpec `json:"c2s"`   // traffic in flight
 	S2C      []SenderSpec `json:"s2c"`
 	SrvDelay []int        `json:"srv_delay_ms"`
 	CliDelay []int        `json:"cli_delay_ms"`
@@ -342,7 +342,9 @@ func runC13(w *World, pi interface{}) {
 
 type highSender struct{ c *lime.Client }
 
-func (h highSender) SendMessage(ctx context.Context, m *lime.Message) error { return h.c.SendMessage(ctx, m) }
+func (h highSender) SendMessage(ctx context.Context, m *lime.Message) error {
+	return h.c.SendMessage(ctx, m)
+}
 func (h highSender) SendNotification(ctx context.Context, n *lime.Notification) error {
 	return h.c.SendNotification(ctx, n)
 }
